@@ -21,6 +21,9 @@ Next == \/ ch = 0 /\ l = 0 /\ ch' \in 1..NCH /\ l' = 0
 
 \* (the index of an engine that holds the rule is the same kind of accelerator: it reports the rule iff the rule matches)
 Invisible(e) == e.with = e.without /\ e.lower_ok /\ e.engine = e.with
+\* a rule is a value: an object that has answered other requests before (the same one; the web request and the hostname
+\* request for the same name) answers like a fresh one
+Stateless(e) == e.used = e.with
 \* for a hostname request (a DNS query) the text the pattern is applied to is Rule!Target: the bare hostname, unless
 \* the pattern pins down a scheme or has the "/label." shape - then it is "http://<hostname>", the request's URL
 TextOf(e) == IF e.hostreq /\ TargetIsHostname([pat |-> e.pat], [hostreq |-> TRUE]) THEN e.hostname ELSE e.url
@@ -30,6 +33,8 @@ Allowed == l > 0 =>
     /\ Invisible(e) \/ ~PrintT(ToJson([kind |-> "REJECT", l |-> l, why |-> "pre-check visible",
                                         spec |-> [with |-> e.without, lower_ok |-> TRUE, engine |-> e.without],
                                         code |-> [with |-> e.with, lower_ok |-> e.lower_ok, engine |-> e.engine]]))
+    /\ Stateless(e) \/ ~PrintT(ToJson([kind |-> "REJECT", l |-> l, why |-> "a used rule answers differently",
+                                        spec |-> [used |-> e.with], code |-> [used |-> e.used]]))
     /\ Semantic(e) \/ ~PrintT(ToJson([kind |-> "REJECT", l |-> l, why |-> "mask semantics",
                                        spec |-> [with |-> Accepts(e.pat, e.mcase, TextOf(e))], code |-> [with |-> e.with]]))
 =============================================================================
